@@ -3,6 +3,7 @@ package main
 // C17 - distinct instances do not interfere: no shared writable state.
 
 import (
+	"go/token"
 	"go/types"
 	"strings"
 
@@ -127,6 +128,49 @@ func isRefType(t types.Type) bool {
 	return false
 }
 
+func isAggregate(t types.Type) bool {
+	switch t.Underlying().(type) {
+	case *types.Struct, *types.Array:
+		return true
+	}
+	return false
+}
+
+// containsRef: does a value of type t carry a reference (slice, map, pointer, chan, func, interface) somewhere inside?
+func containsRef(t types.Type, depth int) bool {
+	if depth > 6 {
+		return false
+	}
+	switch u := t.Underlying().(type) {
+	case *types.Pointer, *types.Slice, *types.Map, *types.Chan, *types.Signature, *types.Interface:
+		return true
+	case *types.Struct:
+		for i := 0; i < u.NumFields(); i++ {
+			if containsRef(u.Field(i).Type(), depth+1) {
+				return true
+			}
+		}
+	case *types.Array:
+		return containsRef(u.Elem(), depth+1)
+	}
+	return false
+}
+
+// aggregateFromGlobal: v is (a phi/conversion of) a struct or array value loaded from a repository package variable.
+func aggregateFromGlobal(p *Program, v ssa.Value) *ssa.Global {
+	for _, leaf := range p.valueSources(v) {
+		u, ok := leaf.(*ssa.UnOp)
+		if !ok || u.Op != token.MUL {
+			continue
+		}
+		root, _ := accessPath(u.X)
+		if g, ok := root.(*ssa.Global); ok && g.Pkg != nil && strings.HasPrefix(g.Pkg.Pkg.Path(), modPath) {
+			return g
+		}
+	}
+	return nil
+}
+
 // globalDerived: is v an address inside a package variable, or a reference loaded from one?
 func globalDerived(p *Program, v ssa.Value) (*ssa.Global, bool) {
 	for _, leaf := range p.valueSources(v) {
@@ -155,6 +199,14 @@ func ruleR17_2(p *Program, r *Report) {
 				switch x := in.(type) {
 				case *ssa.Store:
 					root, sel := accessPath(x.Addr)
+					if _, isG := root.(*ssa.Global); !isG && isAggregate(x.Val.Type()) && containsRef(x.Val.Type(), 0) {
+						// a struct/array value copied out of a package variable takes the variable's
+						// slices, maps and pointers with it: the copy is shallow
+						if g := aggregateFromGlobal(p, x.Val); g != nil {
+							r.Fail("R17.2", shortFn(fn)+"|"+lab.get("copy of "+g.Name()), p.InstrPos(x), "an instance never shares memory with a package variable", "copies the value of "+g.Name()+" ("+typeString(x.Val.Type())+"), which contains slices/maps/pointers: every instance made from it shares their backing store")
+							continue
+						}
+					}
 					if _, isG := root.(*ssa.Global); isG || sel == "" {
 						continue
 					}
@@ -217,7 +269,7 @@ func ruleR17_4(p *Program, r *Report) {
 func init() {
 	controlRegistry["C17"] = []Control{
 		{Rule: "R17.1", Run: ruleR17_1, MustFire: []string{"sharedScratchWrite", "viaCallee"}},
-		{Rule: "R17.2", Run: ruleR17_2, MustFire: []string{"newCodec"}},
+		{Rule: "R17.2", Run: ruleR17_2, MustFire: []string{"newCodec", "fromTemplate"}},
 		{Rule: "R17.4", Run: ruleR17_4, MustFire: []string{"background"}},
 	}
 }
